@@ -734,6 +734,8 @@ def build(name, seed, backend):
     if opts.get("scale") == "LINEAR":
         o["scale"] = LinearScale()
     cls = TimelineSVG if backend == "svg" else TimelineTex
+    if not o:
+        return cls(copy.deepcopy(data))          # a caller without options passes no options argument at all
     return cls(copy.deepcopy(data), o)
 
 
